@@ -4,7 +4,7 @@
    processing (C02) is the universally quantified `hs_step`. No axioms. *)
 From Coq Require Import ZArith List Bool.
 From RV Require Import Lib.Wrap Gen.Consts Gen.DtlsRec Model.DtlsRecord
-  Proofs.DtlsRecordLib Proofs.DtlsRecordSend Proofs.DtlsRecordRecv Proofs.DtlsRecordExamples.
+  Proofs.DtlsRecordLib Proofs.DtlsRecordSend Proofs.DtlsRecordRecv Proofs.DtlsRecordRoundtrip Proofs.DtlsRecordExamples.
 Import ListNotations.
 Open Scope Z_scope.
 
@@ -152,6 +152,26 @@ Theorem C03_history_deliver_only_authentic : forall open H hs_step is_client k d
   exists d r, In d ds /\ In r (parsed d) /\ r_type r = ContentType_ApplicationData /\
               r_epoch r <> RX_PLAIN_EPOCH /\ rec_open open is_client k r = Some p.
 Proof. exact history_deliver_only_authentic. Qed.
+
+(* send and receive fit together: for ANY AEAD that is correct (open inverts seal) and adds a 16-byte tag, the
+   datagram send_record of role c builds for (epoch, seq, pt) is, for a receiver of the opposite role that has
+   the keys, one ApplicationData record whose derived key / nonce / AAD are exactly the sender's: pt is delivered,
+   the receiver is otherwise unchanged -- so the premises of the accept theorems are satisfiable by genuine traffic *)
+Theorem C03_genuine_delivered : forall (seal : list Z -> list Z -> list Z -> list Z -> list Z) open H hs_step,
+  (forall k n a m, open k n a (seal k n a m) = Some m) ->
+  (forall k n a m, zlen (seal k n a m) = zlen m + GCM_TAG_LEN) ->
+  forall (c : bool) (k : keys) epoch seq pt (st : rx H),
+    0 < epoch < 2 ^ 16 -> 0 <= seq < 2 ^ 48 -> zlen pt <= MAX_APP_DATA_RECORD_SIZE ->
+    rx_keys st = Some k -> rx_alive st = true ->
+    recv_datagram open H hs_step (negb c) st (tx_record seal (wkey c k) (wiv c k) epoch seq pt) = (st, [pt]).
+Proof. exact genuine_delivered. Qed.
+
+(* decode inverts the record layout (DtlsRecord::encode / the header written by send_record) *)
+Theorem C03_decode_encoded : forall code ct major minor epoch seq payload rest,
+  content_type_of_u8 code = Some ct -> 0 <= epoch < 2 ^ 16 -> 0 <= seq < 2 ^ 48 -> zlen payload < 2 ^ 16 ->
+  decode ([code; major; minor] ++ be 2 epoch ++ be 6 seq ++ be 2 (zlen payload) ++ payload ++ rest)
+  = Ok (Some (mkRec ct major minor epoch seq payload, rest)).
+Proof. exact decode_encoded. Qed.
 
 (* the record loop's fuel is never the reason it stops *)
 Theorem C03_loop_fuel_enough : forall open H hs_step is_client f1 f2 (st : rx H) data,
